@@ -1,3 +1,152 @@
 (** C03 — audio is re-segmented to follow video boundaries without loss or duplication.
-    Only statements; every proof is [exact <lemma>] (lemmas in theories/AudioProofs.v). *)
-From Verif Require Import GoSem Audio.
+    Only statements; every proof is [exact <lemma>] (lemmas in theories/AudioProofs.v).
+
+    Notation of the statements.
+    [fb r F a t]   = [cdiv (t*a) (r*F) * F]: the exact frame boundary function (reference timescale
+                     [r], frame duration [F], audio timescale [a]); [fidx r F a t = fb r F a t / F]
+                     is the index of that frame boundary.
+    [Timeline.S vr n], [Timeline.E vr n]: start and end of segment [n] of the looped reference
+                     (video) representation [vr] (C01); [Timeline.wf vr loopMS]: admitted asset.
+    [loop_start vr n]: reference time at which the loop containing segment [n] starts.
+    [awf F segs]:    the VoD audio table is non-empty, starts at 0, is contiguous and every segment
+                     holds [s_cnt > 0] frames of duration [F]; [tot segs] frames in all.
+    [ref_pre]:       ranges of the Go types (products below 2^64, fewer than 2^32 frames) and
+                     "the audio table reaches the start of the output segment".
+    [ref_not_inner]: the output interval does NOT start after the beginning of a VoD audio segment
+                     and end before its end (finding audio-inner-interval-500 excluded). *)
+From Verif Require Import GoSem Audio AudioProofs.
+From Verif Require Timeline TimelineProofs.
+
+(** C03_boundary. calcAudioTimeFromRef computes, whenever its products fit into 64 bits, the least
+    multiple of the frame duration that is at or after the reference time: a multiple of [F], at or
+    after [t], less than one frame late, below every other such multiple, monotone in [t]. *)
+Theorem C03_boundary : forall r F a t,
+  0 < r -> 0 < F -> 0 < a -> 0 <= t -> t * a + F * r < two64 ->
+  calcAudioTimeFromRef t r F a = Ok (fb r F a t)
+  /\ fb r F a t mod F = 0
+  /\ t * a <= fb r F a t * r
+  /\ fb r F a t * r - t * a < F * r
+  /\ (forall m, m mod F = 0 -> t * a <= m * r -> fb r F a t <= m)
+  /\ (forall t', t <= t' -> fb r F a t <= fb r F a t').
+Proof. exact boundary_all. Qed.
+Print Assumptions C03_boundary.
+
+(** C03_recipe. For a reference segment inside loop [w] of a reference loop of duration [D] the
+    recipe has the frame boundaries of the segment as output interval, the same interval shifted by
+    the frame boundary of the loop start as input interval, and nothing after the wrap. *)
+Theorem C03_recipe : forall r F a,
+  0 < r -> 0 < F -> 0 < a ->
+  forall nr D w s' e',
+  0 < D -> 0 <= w -> 0 <= s' -> s' <= e' -> e' <= D -> s' < D ->
+  (w * D + D) * a + 2 * F * r < two64 ->
+  calcAudioSegRecipe nr (w * D + s') (w * D + e') D r F a =
+  Ok {| r_nr := nr; r_start := fb r F a (w * D + s'); r_end := fb r F a (w * D + e');
+        r_inStart := fb r F a (w * D + s') - fb r F a (w * D);
+        r_inEnd := fb r F a (w * D + e') - fb r F a (w * D); r_after := 0 |}.
+Proof. exact recipe_in_wrap. Qed.
+Print Assumptions C03_recipe.
+
+(** C03_frames (under [ref_not_inner]). The served segment for reference segment [n] of a well-formed
+    looped reference: tfdt = frame boundary of the reference start, sequence number = the number
+    passed in, and the frames are exactly the frames [g] in [[start/F, end/F)] of the looped source,
+    [src g = min (g - (frame index of the loop start)) (last frame)]: consecutive source frames,
+    restarting at frame 0 at every loop start, the last frame repeated only where the audio table is
+    shorter than the video loop. *)
+Theorem C03_frames : forall r F a,
+  0 < r -> 0 < F -> F < two32 -> 0 < a ->
+  forall vr loopMS, Timeline.wf vr loopMS ->
+  forall nr segs n,
+  ref_pre r F a vr segs n ->
+  ref_not_inner r F a vr segs n ->
+  audio_segment nr (Timeline.S vr n) (Timeline.E vr n) (Timeline.repDuration vr) r F a segs =
+  Ok {| o_tfdt := fb r F a (Timeline.S vr n); o_seq := nr;
+        o_frames := map (fun g => Z.min (g - fidx r F a (loop_start vr n)) (tot segs - 1))
+                        (rangeZ (fidx r F a (Timeline.S vr n)) (fidx r F a (Timeline.E vr n))) |}.
+Proof. exact ref_served_frames. Qed.
+Print Assumptions C03_frames.
+
+(** C03_inner_fails: the hypothesis [ref_not_inner] of C03_frames is necessary, for every asset:
+    when the output interval lies strictly inside one VoD audio segment the request fails (HTTP 500). *)
+Theorem C03_inner_fails : forall r F a,
+  0 < r -> 0 < F -> F < two32 -> 0 < a ->
+  forall vr loopMS, Timeline.wf vr loopMS ->
+  forall nr segs n,
+  ref_pre r F a vr segs n ->
+  ~ ref_not_inner r F a vr segs n ->
+  audio_segment nr (Timeline.S vr n) (Timeline.E vr n) (Timeline.repDuration vr) r F a segs =
+  Err "audioLeft != audioInEndAfterWrap".
+Proof. exact ref_served_inner_fails. Qed.
+Print Assumptions C03_inner_fails.
+
+(** C03_inner_refuted: a concrete asset for which the property fails on the unchanged code
+    (one 8 s audio segment of 375 frames, four 2 s video segments; reference segment 1). *)
+Theorem C03_inner_refuted :
+  Timeline.wf w_video 8000 /\
+  ref_pre 90000 1024 48000 w_video w_audio8 1 /\
+  ~ ref_not_inner 90000 1024 48000 w_video w_audio8 1 /\
+  audio_segment 1 (Timeline.S w_video 1) (Timeline.E w_video 1) (Timeline.repDuration w_video)
+                90000 1024 48000 w_audio8 = Err "audioLeft != audioInEndAfterWrap".
+Proof. exact (conj w_video_wf inner_refuted_witness). Qed.
+Print Assumptions C03_inner_refuted.
+
+(** C03_abut. Whenever two consecutive segments are served, the first starts at the frame boundary of
+    its reference start, holds exactly (end - start)/F frames, (end - start) is a multiple of F, and
+    the second starts exactly where the first ends; [n + 1] may be the first segment of the next loop. *)
+Theorem C03_abut : forall r F a,
+  0 < r -> 0 < F -> F < two32 -> 0 < a ->
+  forall vr loopMS, Timeline.wf vr loopMS ->
+  forall nr1 nr2 segs n o1 o2,
+  ref_pre r F a vr segs n -> ref_pre r F a vr segs (n + 1) ->
+  audio_segment nr1 (Timeline.S vr n) (Timeline.E vr n) (Timeline.repDuration vr) r F a segs = Ok o1 ->
+  audio_segment nr2 (Timeline.S vr (n + 1)) (Timeline.E vr (n + 1)) (Timeline.repDuration vr) r F a segs = Ok o2 ->
+  o_tfdt o1 = fb r F a (Timeline.S vr n) /\
+  lenZ (o_frames o1) = (fb r F a (Timeline.E vr n) - fb r F a (Timeline.S vr n)) / F /\
+  (fb r F a (Timeline.E vr n) - fb r F a (Timeline.S vr n)) mod F = 0 /\
+  o_tfdt o1 + lenZ (o_frames o1) * F = o_tfdt o2.
+Proof. exact ref_abut. Qed.
+Print Assumptions C03_abut.
+
+(** C03_timeline. generateTimelineEntriesFromRef: the produced [<S t d r>] elements expand to exactly
+    one (start, duration) pair per reference entry: (frame boundary of its start, frame boundary of
+    its end - frame boundary of its start), in order -- the values C03_recipe gives the segments. *)
+Theorem C03_timeline : forall r F a,
+  0 < r -> 0 < F -> 0 < a ->
+  forall startNr refT entries,
+  0 <= startNr -> entries <> [] -> Forall (fun e => 0 <= fst e) entries -> 0 <= refT ->
+  end_ref refT entries * a + F * r < two64 ->
+  exists l, audio_timeline startNr refT entries r F a = Ok l
+            /\ expand_s 0 l = map (image r F a) (expand_ref refT entries).
+Proof. exact audio_timeline_ok. Qed.
+Print Assumptions C03_timeline.
+
+(** the listed pair of a reference entry (T, d) is (start, end - start) of the recipe for that segment *)
+Theorem C03_timeline_recipe : forall r F a nr s e D,
+  0 < r -> 0 < F -> 0 < a -> 0 < D -> 0 <= s -> s <= e -> e * a + F * r < two64 ->
+  exists rc, calcAudioSegRecipe nr s e D r F a = Ok rc
+             /\ r_nr rc = nr /\ r_start rc = fb r F a s /\ r_end rc = fb r F a e.
+Proof. exact recipe_start_end. Qed.
+Print Assumptions C03_timeline_recipe.
+
+(** C03_short_audio_refuted: when the audio table does not reach the start of the reference segment
+    ([rp_reach] of [ref_pre] fails) createAudioSeg returns an error or indexes out of range. *)
+Theorem C03_short_audio_refuted :
+  awf 1024 w_audio_half /\ awf 1024 w_audio_quarter /\
+  audio_segment 2 (Timeline.S w_video 2) (Timeline.E w_video 2) (Timeline.repDuration w_video)
+                90000 1024 48000 w_audio_half = Err "audioLeft != audioInEndAfterWrap" /\
+  audio_segment 3 (Timeline.S w_video 3) (Timeline.E w_video 3) (Timeline.repDuration w_video)
+                90000 1024 48000 w_audio_quarter = Panic "createAudioSeg: index out of range (rep.Segments[startNr])".
+Proof. exact short_audio_refuted_witness. Qed.
+Print Assumptions C03_short_audio_refuted.
+
+(** Non-vacuity: the hypotheses of C03_frames hold for the scratch asset short3 (audio loop three
+    frames shorter than the video loop), last segment of the third loop; the frames are source
+    frames 282..371 followed by the last frame three more times. *)
+Example C03_example :
+  Timeline.wf w_video 8000 /\
+  ref_pre 90000 1024 48000 w_video w_audio2short 11 /\
+  ref_not_inner 90000 1024 48000 w_video w_audio2short 11 /\
+  (forall o, audio_segment 12 (Timeline.S w_video 11) (Timeline.E w_video 11) (Timeline.repDuration w_video)
+                           90000 1024 48000 w_audio2short = Ok o ->
+             o_tfdt o = 1056768 /\ o_seq o = 12 /\
+             o_frames o = rangeZ 282 372 ++ [371; 371; 371]).
+Proof. exact (conj w_video_wf frames_example). Qed.
